@@ -14,7 +14,9 @@ use std::sync::atomic::{AtomicUsize, Ordering};
 use std::sync::{Arc, Mutex};
 use std::task::{Context, Poll, Wake, Waker};
 use std::time::SystemTime;
-use vfs::async_vfs::{AsyncAltrootFS, AsyncFileSystem, AsyncMemoryFS, AsyncOverlayFS, AsyncPhysicalFS, AsyncVfsPath};
+use vfs::async_vfs::{
+    AsyncAltrootFS, AsyncFileSystem, AsyncMemoryFS, AsyncOverlayFS, AsyncPhysicalFS, AsyncVfsPath,
+};
 use vfs::{VfsMetadata, VfsResult};
 
 // ------------------------------------------------------------------------------------
@@ -49,7 +51,10 @@ pub fn block_on<F: Future>(f: F) -> F::Output {
             Poll::Pending => {
                 n += 1;
                 if n > POLL_HORIZON {
-                    panic!("poll horizon: future still pending after {} polls", POLL_HORIZON);
+                    panic!(
+                        "poll horizon: future still pending after {} polls",
+                        POLL_HORIZON
+                    );
                 }
                 // woken by an injected Pending (immediately) or by the blocking pool
                 std::thread::park_timeout(std::time::Duration::from_millis(50));
@@ -153,13 +158,19 @@ pub struct AWrap {
 
 impl AWrap {
     async fn point(&self) {
-        MaybePending { pend: self.ctl.hit() }.await
+        MaybePending {
+            pend: self.ctl.hit(),
+        }
+        .await
     }
 }
 
 #[async_trait]
 impl AsyncFileSystem for AWrap {
-    async fn read_dir(&self, path: &str) -> VfsResult<Box<dyn Unpin + Stream<Item = String> + Send>> {
+    async fn read_dir(
+        &self,
+        path: &str,
+    ) -> VfsResult<Box<dyn Unpin + Stream<Item = String> + Send>> {
         self.point().await;
         let s = self.inner.read_dir(path).await?;
         let s: Box<dyn Unpin + Stream<Item = String> + Send> = match self.ctl.order {
@@ -183,15 +194,24 @@ impl AsyncFileSystem for AWrap {
         self.point().await;
         self.inner.create_dir(path).await
     }
-    async fn open_file(&self, path: &str) -> VfsResult<Box<dyn vfs::async_vfs::SeekAndRead + Send + Unpin>> {
+    async fn open_file(
+        &self,
+        path: &str,
+    ) -> VfsResult<Box<dyn vfs::async_vfs::SeekAndRead + Send + Unpin>> {
         self.point().await;
         self.inner.open_file(path).await
     }
-    async fn create_file(&self, path: &str) -> VfsResult<Box<dyn async_std::io::Write + Send + Unpin>> {
+    async fn create_file(
+        &self,
+        path: &str,
+    ) -> VfsResult<Box<dyn async_std::io::Write + Send + Unpin>> {
         self.point().await;
         self.inner.create_file(path).await
     }
-    async fn append_file(&self, path: &str) -> VfsResult<Box<dyn async_std::io::Write + Send + Unpin>> {
+    async fn append_file(
+        &self,
+        path: &str,
+    ) -> VfsResult<Box<dyn async_std::io::Write + Send + Unpin>> {
         self.point().await;
         self.inner.append_file(path).await
     }
@@ -383,19 +403,31 @@ struct SharedAsync(Arc<dyn AsyncFileSystem>);
 
 #[async_trait]
 impl AsyncFileSystem for SharedAsync {
-    async fn read_dir(&self, path: &str) -> VfsResult<Box<dyn Unpin + Stream<Item = String> + Send>> {
+    async fn read_dir(
+        &self,
+        path: &str,
+    ) -> VfsResult<Box<dyn Unpin + Stream<Item = String> + Send>> {
         self.0.read_dir(path).await
     }
     async fn create_dir(&self, path: &str) -> VfsResult<()> {
         self.0.create_dir(path).await
     }
-    async fn open_file(&self, path: &str) -> VfsResult<Box<dyn vfs::async_vfs::SeekAndRead + Send + Unpin>> {
+    async fn open_file(
+        &self,
+        path: &str,
+    ) -> VfsResult<Box<dyn vfs::async_vfs::SeekAndRead + Send + Unpin>> {
         self.0.open_file(path).await
     }
-    async fn create_file(&self, path: &str) -> VfsResult<Box<dyn async_std::io::Write + Send + Unpin>> {
+    async fn create_file(
+        &self,
+        path: &str,
+    ) -> VfsResult<Box<dyn async_std::io::Write + Send + Unpin>> {
         self.0.create_file(path).await
     }
-    async fn append_file(&self, path: &str) -> VfsResult<Box<dyn async_std::io::Write + Send + Unpin>> {
+    async fn append_file(
+        &self,
+        path: &str,
+    ) -> VfsResult<Box<dyn async_std::io::Write + Send + Unpin>> {
         self.0.append_file(path).await
     }
     async fn metadata(&self, path: &str) -> VfsResult<VfsMetadata> {
@@ -465,7 +497,11 @@ impl ABuilder {
             Cfg::Alt(inner, p) => {
                 let first = self.bases.len();
                 let s = self.node(inner, &format!("{}.0", id), upper);
-                let root = if p.is_empty() { s.clone() } else { s.join(&p[1..]).expect("HARNESS: altroot prefix") };
+                let root = if p.is_empty() {
+                    s.clone()
+                } else {
+                    s.join(&p[1..]).expect("HARNESS: altroot prefix")
+                };
                 block_on(root.create_dir_all()).expect("HARNESS: create altroot directory");
                 // the same sentinels as the sync builder
                 let sb = ABlock(s.clone());
@@ -473,10 +509,16 @@ impl ABuilder {
                     let sdir = sb.join("S").unwrap();
                     let _ = sdir.create_dir();
                     let _ = sdir.join("f").unwrap().write_file(b"sentinel");
-                    let _ = sb.join(&format!("{}x", &p[1..])).unwrap().write_file(b"sibling");
+                    let _ = sb
+                        .join(&format!("{}x", &p[1..]))
+                        .unwrap()
+                        .write_file(b"sibling");
                     let mut anc = crate::ops::parent_of(p);
                     while !anc.is_empty() {
-                        let _ = sb.join(&format!("{}/sf", &anc[1..])).unwrap().write_file(b"anc");
+                        let _ = sb
+                            .join(&format!("{}/sf", &anc[1..]))
+                            .unwrap()
+                            .write_file(b"anc");
                         anc = crate::ops::parent_of(&anc);
                     }
                 }
@@ -538,7 +580,10 @@ pub struct AsyncSys {
 
 impl crate::pair::Sys for AsyncSys {
     fn apply(&self, op: &crate::ops::Op) -> (crate::ops::Outcome, Vec<crate::config::LogEntry>) {
-        (crate::ops::apply(&ABlock(self.built.root.clone()), op), vec![])
+        (
+            crate::ops::apply(&ABlock(self.built.root.clone()), op),
+            vec![],
+        )
     }
     fn observe(&self, probes: &[String]) -> crate::snapshot::Snap {
         crate::snapshot::snapshot(&ABlock(self.built.root.clone()), probes)
@@ -562,7 +607,10 @@ impl crate::pair::Sys for AsyncSys {
                         v.push(format!("{}/.whiteout{}_wo", b.prefix, u));
                     }
                 }
-                (b.label.clone(), crate::snapshot::snapshot(&ABlock(b.raw.clone()), &v))
+                (
+                    b.label.clone(),
+                    crate::snapshot::snapshot(&ABlock(b.raw.clone()), &v),
+                )
             })
             .collect()
     }
@@ -581,7 +629,10 @@ impl Silence {
         let _ = std::io::stdout().flush();
         unsafe {
             let saved = libc::dup(1);
-            let null = libc::open(b"/dev/null\0".as_ptr() as *const libc::c_char, libc::O_WRONLY);
+            let null = libc::open(
+                b"/dev/null\0".as_ptr() as *const libc::c_char,
+                libc::O_WRONLY,
+            );
             libc::dup2(null, 1);
             libc::close(null);
             Silence { saved }
